@@ -50,11 +50,12 @@ def run(ctx: Ctx, extended: bool = False) -> None:
     steps = (30 if ctx.quick else 150) * (2 if extended else 1)
     ents = catalog.entries('thorough' if extended else ctx.tier) if (extended or not ctx.quick) else catalog.one_per_class(ctx.tier, ctx.seed)
     per_env = {}
-    for e in ents:
+    for e, stk in wraplib.stack_variants(ents, ctx.quick and not extended, ctx.seed):
         for flag in (False, True):
-            if ctx.quick and not extended and flag != ((sum(map(ord, e.cid)) + ctx.seed) % 2 == 0) and e.cls not in ("Snake", "Knapsack", "Game2048"):
+            if ctx.quick and not extended and flag != ((sum(map(ord, e.cid)) + ctx.seed + int(stk)) % 2 == 0) and (stk or e.cls not in ("Snake", "Knapsack", "Game2048")):
                 continue  # quick tier: one flag per config (alternating with the seed), both for three cheap ones
-            env = e.build()
+            env = wraplib.stacked(e.build()) if stk else e.build()
+            ctx.count("stacked_configs" if stk else "bare_configs")
             w = AutoResetWrapper(env, next_obs_in_extras=flag)
             jreset, jstep = jax.jit(env.reset), jax.jit(env.step)
             wreset, wstep = jax.jit(w.reset), jax.jit(w.step)
@@ -62,7 +63,7 @@ def run(ctx: Ctx, extended: bool = False) -> None:
             key = jax.random.PRNGKey(seed)
             ws, wt = wreset(key)
             s0, t0 = jreset(key)
-            info = {"env": e.cid, "next_obs_in_extras": flag, "reset_seed": seed}
+            info = {"env": e.cid, "next_obs_in_extras": flag, "reset_seed": seed, "behind_user_wrapper": stk}
             g = ts_fields(wt)
             if not tree_close(ws, s0) or not tree_close(wt.observation, t0.observation) or int(wt.step_type) != 0:
                 ctx.fail(e.cid, "reset", "AutoResetWrapper.reset differs from env.reset", info)
@@ -104,9 +105,9 @@ def run(ctx: Ctx, extended: bool = False) -> None:
             # KeyMonotone witness for the hypothesis of fresh_keys (informational)
             d = wraplib.descendant_depth(key, s0.key)
             ctx.count("key_monotone_witnessed" if d is not None else "key_monotone_not_witnessed:" + e.cid)
-            per_env[f"{e.cid}:{int(flag)}"] = {"steps": steps, "episodes_ended": lasts}
+            per_env[f"{e.cid}:{int(flag)}{':stacked' if stk else ''}"] = {"steps": steps, "episodes_ended": lasts}
             # scan / vmap variants of the wrapper itself (C02 for the wrapper)
-            if (not ctx.quick) or extended or e.cls in ("Snake", "Knapsack", "Tetris", "Connector"):
+            if ((not ctx.quick) or extended or e.cls in ("Snake", "Knapsack", "Tetris", "Connector")) and not stk:
                 acts = jnp.stack([jnp.asarray(sample_action(env, rng)) for _ in range(6)])
                 ws0, _ = wreset(key)
                 fin, _ = jax.lax.scan(lambda s, a: wstep(s, a), ws0, acts)
